@@ -32,6 +32,8 @@ type Obligation struct {
 
 // Exec is one symbolic-execution session (one Builder; not safe for concurrent use).
 type Exec struct {
+	initv      *initInfo // initial values of package variables (initvals.go)
+	hasInitial bool      // some contract file has an "initial" directive
 	implIfaces map[string]types.Type
 	implCache map[string][]implCase
 	RootPkg string // package path of the function under verification (see usable)
@@ -81,6 +83,11 @@ func NewExec(prog *ssa.Program, specs map[string]*spec.DB) *Exec {
 		strs: map[string]*smt.Term{}, Notes: map[string]bool{}, oblN: map[string]int{}, Ghosts: map[string]GhostFn{}, keySorts: map[string]*smt.Sort{}, escaped: map[*Cell]bool{}, shared: map[*Cell]bool{}}
 	x.initLib()
 	x.registerGhosts()
+	for _, db := range specs {
+		if len(db.Initial) > 0 {
+			x.hasInitial = true
+		}
+	}
 	return x
 }
 
